@@ -308,10 +308,16 @@ class NpProxy:
         if self._tracer is None:
             base[...] = self._fill
             return base
+        if base.ndim != 2 or max(base.shape) > 8:
+            base[...] = 0.123       # big arrays (u_matrix) are fully written by the library; not logged
+            return base
         t = self._tracer
         aid = len(t.arrays)
         arr = base.view(LogArr)
-        if arr.ndim == 2:
+        # fit phase: the same constant as plain_fit (the structure of regular vines depends on unwritten tau cells: C16/F8);
+        # likelihood phase: distinct content per cell, so that garbage can be tagged
+        np.ndarray.__setitem__(arr, Ellipsis, 0.123)
+        if t.distinct_garbage:
             for r in range(arr.shape[0]):
                 for c in range(arr.shape[1]):
                     np.ndarray.__setitem__(arr, (r, c), garbage_value(aid, r, c))
@@ -354,6 +360,7 @@ class Tracer:
         self.tau_mats = {}     # level -> (LogArr id)
         self.ctx = {'phase': None, 'tree': None, 'edge': None}
         self.marks = []        # (event index, phase, tree level, edge index)
+        self.distinct_garbage = False
 
     # ---- registry
     def register(self, arr, term):
@@ -443,7 +450,7 @@ class Tracer:
 
             def kt(a, b, *aa, **kw):
                 res = okt(a, b, *aa, **kw)
-                tr.taus.append({'level': lvl, 'x': tr.lookup(a), 'y': tr.lookup(b), 'value': float(res[0])})
+                tr.taus.append({'level': lvl, 'x': tr.lookup(a), 'y': tr.lookup(b), 'value': float(res[0]), 'pos': len(tr.events)})
                 return res
             scipy.stats.kendalltau = kt
             try:
@@ -515,18 +522,27 @@ class Tracer:
         return v, exc
 
     def tau_records(self, v):
-        """per level t (matrix built FROM tree t): matrix of None | (term, term), from the written cells of the logged np.empty
-        array and the recorded kendalltau calls (a cell is attributed to the calls that returned its value)"""
+        """per level t (matrix built FROM tree t): matrix of None | (term, term): the cells of the logged np.empty array that were written,
+        each attributed to the kendalltau call that immediately precedes the write (and returned the written value)"""
         out = {}
         for lvl, aid in self.tau_mats.items():
             ne = len(v.trees[lvl].edges)
             M = [[None] * ne for _ in range(ne)]
-            for ev in self.events:
+            calls = [c for c in self.taus if c['level'] == lvl]
+            for k, ev in enumerate(self.events):
                 if ev[0] == 'w' and ev[1] == aid:
-                    i, j = ev[2]
-                    val = float(ev[3])
-                    cands = {(c['x'], c['y']) for c in self.taus if c['level'] == lvl and (c['value'] == val or (c['value'] != c['value'] and val != val))}
-                    M[int(i)][int(j)] = sorted(cands)[0] if len(cands) == 1 else ('ambiguous', sorted(cands))
+                    try:
+                        i, j = ev[2]
+                        val = float(ev[3])
+                        prev = [c for c in calls if c['pos'] <= k]
+                        c = prev[-1] if prev else None
+                        fresh = c is not None and not any(e2[0] == 'w' and e2[1] == aid for e2 in self.events[c['pos']:k])
+                        if fresh and (c['value'] == val or (c['value'] != c['value'] and val != val)):
+                            M[int(i)][int(j)] = (c['x'], c['y'])
+                        else:
+                            M[int(i)][int(j)] = ('ambiguous', 'written value is not the result of the preceding kendalltau call')
+                    except Exception as ex:      # noqa
+                        return {lvl: [[('ambiguous', f'unsupported write {ev[2]!r}: {ex}')]]}
             out[lvl] = M
         return out
 
@@ -600,6 +616,7 @@ class Tracer:
                 if name in c.__dict__:
                     wrap_drain(c, name)
         val, exc = None, None
+        self.distinct_garbage = True
         try:
             with warnings.catch_warnings():
                 warnings.simplefilter('ignore')
@@ -607,6 +624,7 @@ class Tracer:
         except Exception as ex:      # noqa
             exc = ex
         finally:
+            self.distinct_garbage = False
             for (c, name), o in saved.items():
                 setattr(c, name, o)
         drain()
@@ -913,3 +931,213 @@ def qfrac(x):
     f = Fraction(float(x))
     s = f'({abs(f.numerator)} # {f.denominator})'
     return s if f >= 0 else f'(- {s})'
+
+
+# ================================================================================================
+# 6. numeric statement of the property on a fitted vine (untraced; used by the oracles and the replay snippets)
+# ================================================================================================
+def library_epsilon():
+    from copulas.utils import EPSILON
+    return float(EPSILON)
+
+
+def spec_columns(struct, trees, U):
+    """F(i | S) as arrays over the training rows: the textbook recursion with the vine's own pair copulas and the library's
+    0 -> EPSILON, 1 -> 1 - EPSILON correction after every h step.  Returns the function F(i, frozenset S)."""
+    eps = library_epsilon()
+    byset = {}
+    for t, row in enumerate(struct):
+        for (idx, (L, R), D, par) in row:
+            byset[(frozenset((L, R)), frozenset(D))] = (t, idx)
+    memo = {}
+
+    def F(i, S):
+        key = (i, S)
+        if key in memo:
+            return memo[key]
+        if not S:
+            memo[key] = np.asarray(U[:, i], dtype=float)
+            return memo[key]
+        for x in sorted(S):
+            k = (frozenset((i, x)), S - {x})
+            if k in byset:
+                t, idx = byset[k]
+                c = copula_of(trees[t].edges[idx])
+                col = np.array(c.partial_derivative(np.column_stack([F(i, S - {x}), F(x, S - {x})])), dtype=float)
+                col[col == 0] = eps
+                col[col == 1] = 1 - eps
+                memo[key] = col
+                return col
+        raise KeyError(f'no edge of the vine gives F({i}|{sorted(S)})')
+    return F
+
+
+def record_selects():
+    """context manager: list of (X copy, name, theta) for every Bivariate.select_copula call"""
+    class R:
+        def __enter__(self):
+            from copulas.bivariate.base import Bivariate
+            self.B = Bivariate
+            self.saved = Bivariate.__dict__['select_copula']
+            self.calls = []
+            o = self.saved.__func__
+            rec = self
+
+            def select(cls, X):
+                with warnings.catch_warnings():
+                    warnings.simplefilter('ignore')
+                    res = o(cls, X)
+                rec.calls.append((np.array(X, dtype=float, copy=True), res.copula_type, res.theta))
+                return res
+            Bivariate.select_copula = classmethod(select)
+            return self
+
+        def __exit__(self, *exc):
+            self.B.select_copula = self.saved
+            return False
+    return R()
+
+
+def plain_fit(vt, X, truncated, random_state=None, fill=0.123):
+    """untraced VineCopula(vt).fit(X, truncated) with recorded select_copula inputs; np.empty of the vine modules filled with a constant
+    (so that the structure of regular vines, which depends on unwritten tau cells (C16/F8), is reproducible)"""
+    from copulas.multivariate import VineCopula
+    with warnings.catch_warnings():
+        warnings.simplefilter('ignore')
+        v = VineCopula(vt, random_state=random_state)
+        with poison(fill), record_selects() as rec:
+            v.fit(X, truncated=truncated)
+    return v, rec.calls
+
+
+def numeric_flow(v, calls, struct=None):
+    """the data-flow clause of the property, numerically: for every edge (L, R | D) the two columns handed to select_copula are
+    F(L|D), F(R|D) (level 1: the two marginal columns in either order) and edge.U = [F(L|D+R), F(R|D+L)].
+    Returns [(tree (1-based), edge index, (L, R, D), what)]."""
+    from . import vinestruct as VS
+    struct = struct or VS.edges_of(v.trees)
+    F = spec_columns(struct, v.trees, v.u_matrix)
+    bad, k = [], 0
+    for t, row in enumerate(struct):
+        for (idx, (L, R), D, par) in row:
+            e = v.trees[t].edges[idx]
+            S = frozenset(D)
+            X = calls[k][0] if k < len(calls) else None
+            k += 1
+            try:
+                fl, fr = F(L, S), F(R, S)
+                ul, ur = F(L, S | {R}), F(R, S | {L})
+            except KeyError as ex:
+                bad.append((t + 1, idx, (L, R, D), f'not a regular vine: {ex}'))
+                continue
+            if X is None or X.shape != (len(fl), 2):
+                bad.append((t + 1, idx, (L, R, D), 'no select_copula call with an (n, 2) input recorded for this edge'))
+            else:
+                ok = np.array_equal(X[:, 0], fl) and np.array_equal(X[:, 1], fr)
+                if t == 0:
+                    ok = ok or (np.array_equal(X[:, 0], fr) and np.array_equal(X[:, 1], fl))
+                if not ok:
+                    d0 = float(np.max(np.abs(X[:, 0] - fl)))
+                    d1 = float(np.max(np.abs(X[:, 1] - fr)))
+                    sw = np.array_equal(X[:, 0], fr) and np.array_equal(X[:, 1], fl)
+                    bad.append((t + 1, idx, (L, R, D), 'select_copula received ' + ('(F(R|D), F(L|D)): the two columns swapped' if sw else
+                                f'columns that are not (F(L|D), F(R|D)): max |col0 - F({L}|{D})| = {d0:.3g}, max |col1 - F({R}|{D})| = {d1:.3g}')))
+            Ue = np.asarray(e.U, dtype=float)
+            if Ue.shape != (2, len(fl)) or not (np.array_equal(Ue[0], ul) and np.array_equal(Ue[1], ur)):
+                dd = 'shape ' + str(Ue.shape) if Ue.shape != (2, len(fl)) else \
+                    f'max |U[0] - F({L}|{sorted(S | {R})})| = {float(np.max(np.abs(Ue[0] - ul))):.3g}, max |U[1] - F({R}|{sorted(S | {L})})| = {float(np.max(np.abs(Ue[1] - ur))):.3g}'
+                bad.append((t + 1, idx, (L, R, D), 'edge.U is not [F(L|D+R), F(R|D+L)]: ' + dd))
+    return bad
+
+
+def fixed_u(d, k=0):
+    """one row of (0,1)^d with pairwise distinct entries (k = 0..4 selects the row)"""
+    return np.array([[(i + 0.6 + 0.07 * (k % 5) + 0.013 * ((i * 3 + k) % 4)) / (d + 0.5) for i in range(d)]])
+
+
+def likelihood_report(v, u, struct=None):
+    """get_likelihood under different contents of np.empty, twice, after another call, and the specification value"""
+    from . import vinestruct as VS
+    struct = struct or VS.edges_of(v.trees)
+    out = {}
+
+    def call(x):
+        with warnings.catch_warnings():
+            warnings.simplefilter('ignore')
+            try:
+                return float(v.get_likelihood(np.array(x, dtype=float, copy=True)))
+            except Exception as ex:      # noqa
+                return f'{type(ex).__name__}: {ex}'
+    with poison(float('nan')):
+        out['nan'] = call(u)
+        out['nan_again'] = call(u)
+    with poison(0.123):
+        out['0.123'] = call(u)
+        call(fixed_u(u.shape[1], 3))
+        out['0.123_after_other_call'] = call(u)
+    with poison(0.77):
+        out['0.77'] = call(u)
+    out['plain'] = call(u)
+    out['plain_again'] = call(u)
+    try:
+        out['spec'] = spec_likelihood(struct, v.trees, u[0])
+    except Exception as ex:      # noqa
+        out['spec'] = f'{type(ex).__name__}: {ex}'
+    return out
+
+
+def same_value(a, b):
+    if isinstance(a, str) or isinstance(b, str):
+        return a == b
+    return a == b or (a != a and b != b)
+
+
+def close(a, b, rel=1e-9):
+    if isinstance(a, str) or isinstance(b, str) or a != a or b != b:
+        return False
+    return abs(a - b) <= rel * (1 + abs(a) + abs(b))
+
+
+# ---- replay entry points (used by the `repro` snippets; a non-empty result = the violation manifests)
+def _table(tseed, d, n, kind):
+    from . import vinestruct as VS
+    return VS.make_table(tseed, d, n, kind)
+
+
+def repro_columns(vt, tseed, d, n, kind, t, only_tree=None):
+    X = _table(tseed, d, n, kind)
+    v, calls = plain_fit(vt, X, t)
+    bad = numeric_flow(v, calls)
+    return [f'tree {b[0]} edge {b[1]} ({b[2][0]},{b[2][1]}|{b[2][2]}): {b[3]}' for b in bad if only_tree is None or b[0] == only_tree]
+
+
+def repro_likelihood(vt, tseed, d, n, kind, t):
+    X = _table(tseed, d, n, kind)
+    v, calls = plain_fit(vt, X, t)
+    r = likelihood_report(v, fixed_u(d))
+    out = []
+    keys = ['nan', 'nan_again', '0.123', '0.123_after_other_call', '0.77']
+    if not all(same_value(r[k], r['nan']) for k in keys):
+        out.append('get_likelihood(u) depends on the content of np.empty / on earlier calls: ' + ', '.join(f'{k}: {r[k]}' for k in keys))
+    if not close(r['0.123'], r['spec']):
+        out.append(f"get_likelihood(u) = {r['0.123']} but the sum of log pair-copula densities at the h-propagated arguments is {r['spec']}")
+    return out
+
+
+def repro_sampler(vt, tseed, d, n, kind, t, rows=3, seed=5):
+    X = _table(tseed, d, n, kind)
+    v, calls = plain_fit(vt, X, t, random_state=seed)
+    out = []
+    try:
+        with warnings.catch_warnings():
+            warnings.simplefilter('ignore')
+            s = v.sample(rows)
+    except Exception as ex:      # noqa
+        return [f'sample({rows}) raised {type(ex).__name__}: {ex}']
+    if s.shape != (rows, d):
+        out.append(f'sample({rows}) has shape {s.shape}')
+    if list(s.columns) != list(X.columns):
+        out.append(f'columns {list(s.columns)} != training columns {list(X.columns)}')
+    if not np.isfinite(s.to_numpy(dtype=float)).all():
+        out.append('missing / non-finite values in the sample')
+    return out
